@@ -207,6 +207,10 @@ def reset_initial_conditions(
     if ClockStruct.sim_off_season is False:
         # Reset water content to starting conditions
         InitCond.th = np.array(InitCond.thini, dtype=float)
+        # Evaporation/transpiration demand of the previous season's last day must not
+        # enter the irrigation decision of the new season's first day
+        InitCond.e_pot = 0
+        InitCond.t_pot = 0
         # Reset surface storage
         if (FieldMngt.bunds) and (FieldMngt.z_bund > 0.001):
             # Get initial storage between surface bunds
